@@ -93,3 +93,39 @@ use crate::traits::{IdentityHandle, OperationId};
 
 impl IdentityHandle for VerifyingKey {}
 impl OperationId for Hash {}
+
+/// Verification hooks: expose the crate-private membership state functions to replay programs.
+#[cfg(p2panda_p2panda_verif)]
+pub mod verif {
+    use std::collections::HashMap;
+    use std::hash::Hash;
+
+    pub use crate::group::crdt::state::{add, create, demote, merge, promote, remove};
+    use crate::group::{GroupMembersState, MemberState};
+    use crate::Access;
+
+    /// Build a member state from its parts.
+    pub fn member_state<C>(member_counter: usize, access: Access<C>, access_counter: usize) -> MemberState<C> {
+        MemberState {
+            member_counter,
+            access,
+            access_counter,
+        }
+    }
+
+    /// Build a group members state from its entries.
+    pub fn members_state<ID: Hash + Eq, C>(entries: Vec<(ID, MemberState<C>)>) -> GroupMembersState<ID, C> {
+        GroupMembersState {
+            members: entries.into_iter().collect::<HashMap<_, _>>(),
+        }
+    }
+
+    /// Entries (id, member counter, access, access counter) of a group members state.
+    pub fn entries<ID: Hash + Eq + Clone, C: Clone>(state: &GroupMembersState<ID, C>) -> Vec<(ID, usize, Access<C>, usize)> {
+        state
+            .members
+            .iter()
+            .map(|(id, m)| (id.clone(), m.member_counter, m.access.clone(), m.access_counter))
+            .collect()
+    }
+}
